@@ -4,7 +4,7 @@ import copy
 from .. import gen, oracles, world
 from ._tree import make
 
-COMMANDS = ["create", "createsf", "verify", "verifydh", "diff", "info", "infosf", "flatten"]
+COMMANDS = ["create", "createsf", "verify", "verifydh", "verifydh_co", "verifydh_ro", "diff", "info", "infosf", "flatten"]
 KINDS = ["flip", "insert", "delete", "truncate", "append"]
 
 
@@ -59,6 +59,8 @@ def scenario(rng, i):
             steps.append({"op": "infosf", "file": rng.choice(files), "root": ""})
         elif c == "create":
             steps.append({"op": "create", "fmts": gen.gen_fmts(rng)})
+        elif c in ("verifydh_co", "verifydh_ro"):
+            steps.append({"op": "verifydh", c[-2:]: True})
         else:
             steps.append({"op": c})
     return {"tree": tree, "steps": steps}
